@@ -60,8 +60,10 @@ class Contract:
     def __init__(self, target, *, params=None, self_type=None, result=None, requires=None, ensures=None,
                  raises=None, modifies=None, loops=None, tags=(), kind="property", recursive_ok=False,
                  decreases=None, pre_hints=None, post_hints=None, entry=False, setup=None, ghost=None,
-                 exc_hints=None, pure=False, havoc_self=False, cutpoints=None, assume_ensures_only=False, label=None):
+                 exc_hints=None, pure=False, havoc_self=False, cutpoints=None, assume_ensures_only=False, label=None,
+                 ghost_params=None):
         self.label = label
+        self.ghost_params = ghost_params or {}    # universally quantified ghost inputs: name -> type
         self.model = None
         self.target = target
         self.params = params or {}            # name -> type string (overrides annotations)
@@ -429,6 +431,15 @@ def apply_contract(eng, c: Contract, fv, args, kwargs, st: State):
             s.frames.pop()
             out.append((s, r))
             continue
+        # universally quantified ghost inputs: the caller's variable of the same name if it has one, else arbitrary
+        for gname, gty in c.ghost_params.items():
+            caller = s.heap[s.frames[-2]] if len(s.frames) >= 2 else None
+            val = None
+            oid = s.frames[-2] if len(s.frames) >= 2 else None
+            while oid is not None and val is None:
+                val = s.heap[oid].f.get(gname)
+                oid = s.heap[oid].f.get("__parent__")
+            s.env.f[gname] = val if val is not None else fresh(eng, s, gty, gname)
         # requires
         for cl in c.requires:
             g = eval_clause(eng, s, cl.node)
@@ -817,6 +828,10 @@ def verify(eng, c: Contract, tags=None, timeout_ms=None, both=False):
         v = fresh(eng, st, ty, pname)
         st.env.f[pname] = v
         inputs.append((pname, v))
+    for gname, gty in c.ghost_params.items():
+        v = fresh(eng, st, gty, gname)
+        st.env.f[gname] = v
+        inputs.append((gname, v))
     if c.setup is not None:
         c.setup(eng, st)
     hk = eng.hooks.get("describe_inputs")
